@@ -175,3 +175,10 @@ def run(P, R, tier):
                     R.check(c.has_attr(a), "DEP.ml", f.key, f"{mp}.{t.attr} depends on .{a}", "", f"the ML update of {t.attr} does not depend on {a}", st.lineno)
     from ..engines import proto as _pp
     _pp.check_pairwise_folds(P, R, ['gmm', 'utils'])
+    # the model the next E-step sees is the one the M-step produced, on both execution paths (with their caches)
+    from ..engines import own as _owneng, proto as _pp2
+    _own = _owneng.Own(P)
+    nb = _pp2.check_branch(P, R, FIT)
+    ncb = _pp2.check_copyback(P, R, _own, FIT, ("m_step",))
+    R.floor("BRANCH/COPYBACK (GMM fit)", nb + ncb, 2)
+
